@@ -514,6 +514,10 @@ class StmtMixin:
         fields = set(lp.modifies_fields) if lp.modifies_fields is not None else self.probe_writes(body, st, extra, prelude)
         cells = self.last_probe_cells
         from .state import field_sort
+        import os as _os
+
+        if _os.environ.get("PYVC_DEBUG_PROBE"):
+            print("PROBE", self.cur_key, getattr(body[0], "lineno", 0), sorted(fields), {k: len(v) for k, v in cells.items()})
 
         for f in fields:
             if f in cells:
@@ -635,6 +639,14 @@ class StmtMixin:
                 cur = nxt
             return outs + [Out("normal", s) for s in cur]
         seq = self.iter_view(st, it, node)
+        if lp.frozen_iter:
+            # the loop sees the list as it was when the loop started (assumption recorded in the evidence)
+            from .spec import Assumed as _A
+
+            self.used_assumed[f"loop@{node.lineno} of {self.cur_key}: iterated list is not mutated by the body"] = _A(why=lp.frozen_iter)
+            snap = st.fork()
+            live = seq
+            seq = {"len": lambda s_, _l=live, _sn=snap: _l["len"](_sn), "get": lambda s_, i_, _l=live, _sn=snap: self._frozen_get(_l, _sn, s_, i_)}
         idx_name = lp.index or f"$i{node.lineno}"
         i0 = vint(0)
         self.check_invariant(st, lp, "entry", node, {idx_name: i0})
@@ -679,6 +691,14 @@ class StmtMixin:
                     else:
                         outs.append(bo)
         return outs
+
+    def _frozen_get(self, live, snap: State, cur: State, i):
+        npc = len(snap.pc)
+        v = live["get"](snap, i)
+        for f in snap.pc[npc:]:
+            cur.assume(f)
+        del snap.pc[npc:]
+        return v
 
     def iter_view(self, st: State, it: Val, node):
         """A sequence view {len(st), get(st, i)} of an iterable value."""
